@@ -81,6 +81,13 @@ CLAIMED = {
              "naming a graph by a foreign Graph object) and the snapshot must be unchanged and both answers equal. Serializers, "
              "isomorphic, canonicalisation, graph_diff and DESCRIBE are covered only by a shape-symbolic supplement (512 membership cases).",
         ref="DESIGN.md section 3 C13"),
+    "C15": dict(
+        technique="differential symbolic execution (CrossHair + z3): two evaluations of rdflib's SPARQL engine on the same symbolic data inside one path",
+        text="Bounded symbolic differential checking without an oracle: BGP triple-pattern permutations, operand swaps of joins and unions, "
+             "consistent variable renaming with PREFIX spelling over the C04/C08/C11 catalogues, initBindings vs a VALUES row with a "
+             "symbolic term, one prepared Query object re-used on symbolic graphs G1, G2, G1 vs freshly prepared copies, and the same "
+             "data in Memory / SimpleMemory / AuditableStore / ReadOnlyGraphAggregate; solution multisets must coincide for every content.",
+        ref="DESIGN.md section 3 C15"),
 }
 
 NA = {
@@ -91,7 +98,6 @@ NA = {
     "C09": "check not built yet in this commit (planned: engines K + R)",
     "C12": "every parser keys its blank-node label map on text extracted by regex/SAX/JSON; a symbolic label is realised by that extraction (probe: no verdict in 300 s), what remains is a boolean 'same label or not'",
     "C14": "canonicalisation hashes n3() strings with SHA-256 (C code) before its first structural branch, realising every symbolic input; the interesting inputs are boolean structures",
-    "C15": "check not built yet in this commit (planned: engine S)",
     "C16": "result codecs are json/expat/csv (C) and a pyparsing grammar over term contents that cannot be symbolic; remaining symbolic inputs are bound/unbound booleans",
     "C17": "check not built yet in this commit (planned: engines S + K)",
     "C20": "property is about HTTP round trips and the meaning of generated SPARQL text, which needs pyparsing on that text; all symbolic data is realised at n3()/socket/JSON boundaries",
